@@ -66,6 +66,13 @@ def run_selection(ctx, cls, f: FunctionInfo, tags: list, ranks: dict, comps: dic
             return n_cases
         if nm == "array" and len(args) == 1 and isinstance(args[0], list):
             return Arr(args[0])
+        if nm in ("fromiter", "asarray") and args and isinstance(args[0], list) and isinstance(call.func, ast.Attribute) \
+                and (kwargs.get("count") in (None, len(args[0]), -1)):
+            return Arr(args[0])           # np.fromiter(<generator>, dtype=..., count=len): the array of the produced values
+        if nm == "flatnonzero" and len(args) == 1 and isinstance(args[0], list) and all(isinstance(x, bool) or _is_num(x) for x in args[0]):
+            return [i_ for i_, x in enumerate(args[0]) if x]
+        if nm == "nonzero" and len(args) == 1 and isinstance(args[0], list) and all(isinstance(x, bool) or _is_num(x) for x in args[0]):
+            return [[i_ for i_, x in enumerate(args[0]) if x]]
         if nm == "isnan" and len(args) == 1 and _is_num(args[0]):
             return args[0] != args[0]
         if nm == "isnan" and len(args) == 1 and isinstance(args[0], Arr) and all(_is_num(x) for x in args[0]):
